@@ -45,6 +45,10 @@ pub struct SurfaceCfg {
     pub doctype_subset: bool,
     /// allow CR in content (line-end normalisation is not done by quick-xml, deserializers differ)
     pub allow_cr: bool,
+    /// allow blank character data to be written as CDATA
+    pub blank_cdata: bool,
+    /// allow processing instructions (comments are governed by `comments`)
+    pub pis: bool,
 }
 
 impl SurfaceCfg {
@@ -62,6 +66,8 @@ impl SurfaceCfg {
             rich_values: true,
             doctype_subset: true,
             allow_cr: true,
+            blank_cdata: true,
+            pis: true,
         }
     }
     pub fn plain() -> Self {
@@ -78,6 +84,8 @@ impl SurfaceCfg {
             rich_values: false,
             doctype_subset: false,
             allow_cr: false,
+            blank_cdata: true,
+            pis: true,
         }
     }
 }
@@ -164,7 +172,7 @@ impl<'t, 'c> Ser<'t, 'c> {
         }
         while self.t.chance(24) {
             self.n_comments += 1;
-            if self.t.chance(90) {
+            if self.t.chance(90) && self.cfg.pis {
                 let p = *self.t.pick(PIS);
                 self.push(p);
             } else {
@@ -196,7 +204,7 @@ impl<'t, 'c> Ser<'t, 'c> {
 
     fn chars(&mut self, blank: bool, v: &mut VNode, neighbours_chunk: bool) {
         let blank = if self.cfg.free_blankness { self.t.chance(100) } else { blank };
-        let as_cdata = self.cfg.cdata && self.t.chance(70);
+        let as_cdata = self.cfg.cdata && self.t.chance(70) && (!blank || self.cfg.blank_cdata);
         if as_cdata {
             self.n_cdata += 1;
             let content: &str = if blank {
